@@ -222,7 +222,13 @@ func runCase(t *rapid.T, c caseT) {
 			outs = append(outs, msg)
 		}
 		for i := 0; i < b.Outputs; i++ {
-			o := message.NewMessage(fmt.Sprintf("%s-out%d", tag, i), []byte(tag))
+			uuid := fmt.Sprintf("%s-out%d", tag, i)
+			if b.Pad == 2 {
+				uuid = "" // UUIDs are optional and need not be unique: every output of this message has the empty one
+			} else if b.Pad == 3 {
+				uuid = tag // ... or they all share their parent's
+			}
+			o := message.NewMessage(uuid, []byte(fmt.Sprintf("%s#%d", tag, i)))
 			o.Metadata.Set("src", tag)
 			outs = append(outs, o)
 		}
